@@ -173,7 +173,7 @@ func (w *World) Enabled() []Event {
 		if len(n.LocalQ) > 0 {
 			out = append(out, Event{Kind: EvLocal, Node: id})
 		}
-		if len(n.AppendQ) > 0 {
+		if len(n.AppendQ) > 0 && !n.AppendPaused {
 			out = append(out, Event{Kind: EvAppend, Node: id})
 			if w.mayCrash(n) {
 				out = w.appendCrashEvents(n, out)
@@ -254,6 +254,18 @@ func (w *World) Enabled() []Event {
 			out = append(out, Event{Kind: EvDup, Arg: uint16(k)})
 		}
 	}
+	if w.Budget[BPause] > 0 {
+		// a storage thread stalls while it has work queued (it resumes when the script says so,
+		// or at the latest when the script has ended)
+		for _, n := range w.Nodes {
+			if n.Cfg.Async && !n.Stopped && len(n.AppendQ) > 0 && !n.AppendPaused {
+				out = append(out, Event{Kind: EvPauseAppend, Node: uint8(n.ID), Arg: 1})
+			}
+			if n.Cfg.Async && !n.Stopped && len(n.ApplyQ) > 0 && !n.ApplyPaused {
+				out = append(out, Event{Kind: EvPauseApply, Node: uint8(n.ID), Arg: 1})
+			}
+		}
+	}
 	if w.Budget[BDelay] > 0 {
 		for _, n := range w.Nodes {
 			for k := range w.Net {
@@ -285,7 +297,7 @@ func (w *World) Quiescent() bool {
 		if n.Stopped {
 			continue
 		}
-		if n.Pending != nil || len(n.AppendQ) > 0 || (len(n.ApplyQ) > 0 && !n.ApplyPaused) || len(n.LocalQ) > 0 || w.hasReady(n) {
+		if n.Pending != nil || (len(n.AppendQ) > 0 && !n.AppendPaused) || (len(n.ApplyQ) > 0 && !n.ApplyPaused) || len(n.LocalQ) > 0 || w.hasReady(n) {
 			return false
 		}
 	}
@@ -316,6 +328,9 @@ func (w *World) nodeFingerprint(n *Node) []byte {
 	}
 	if n.ApplyPaused {
 		b = append(b, 2)
+	}
+	if n.AppendPaused {
+		b = append(b, 3)
 	}
 	for _, q := range [][]*pb.Message{n.AppendQ, n.ApplyQ, n.LocalQ} {
 		b = binary.AppendUvarint(b, uint64(len(q)))
